@@ -12,7 +12,7 @@ FINISH = dict(level="fault_enumeration",
                    "micro-step rollback models (Faults.tla) are model-checked for every failing position; generated valid / mutated / "
                    "chunked documents are parsed with each allocation request failing in turn (fault-free outcome, or no value with the "
                    "out-of-memory status; nothing left allocated)")
-MUTS = ["objadd_key_leak", "attach_leak"]
+MUTS = ["objadd_key_leak", "attach_leak", "format_dangling"]
 
 
 def diag_of(rec, ex):
